@@ -87,6 +87,11 @@ func (o Op) String() string {
 		return fmt.Sprintf("p%d s%d.Sort()", o.P, o.H)
 	case "sp.sortabs":
 		return fmt.Sprintf("p%d s%d.SortAbsolute()", o.P, o.H)
+	case "sp.poke":
+		if o.B != "" {
+			return fmt.Sprintf("p%d (pair #%d kept from an Iterate callback of s%d).Name += %s", o.P, o.W, o.H, q(string(o.B)))
+		}
+		return fmt.Sprintf("p%d (pair #%d kept from an Iterate callback of s%d).Value += %s", o.P, o.W, o.H, q(string(o.A)))
 	case "sp.iter":
 		cb := []string{"no-op", "if name==" + q(string(o.A)) + " {value=" + q(string(o.B)) + "}", "name+=" + q(string(o.A)),
 			"reads s.Has(name), s.Get(name) of the same list", "reads s.String() of the same list", "reads Href() and Search() of the owning URL",
